@@ -4,9 +4,31 @@ import (
 	"bufio"
 	"encoding/json"
 	"fmt"
+	"net/http"
 	"net/url"
+	"sort"
 	"strconv"
+	"strings"
 )
+
+// same canonical form as vrest.HeaderString
+func headerString(h http.Header) string {
+	var ks []string
+	for k := range h {
+		ks = append(ks, k)
+	}
+	sort.Strings(ks)
+	var parts []string
+	for _, k := range ks {
+		for _, v := range h[k] {
+			parts = append(parts, strconv.Quote(k+": "+v))
+		}
+	}
+	if len(parts) == 0 {
+		return "-"
+	}
+	return strings.Join(parts, ",")
+}
 
 // the externals the rest model leaves symbolic (C06)
 type extCase struct {
@@ -42,6 +64,12 @@ func runExt(lines []string, out *bufio.Writer) {
 			pu.RawQuery = ""
 			fmt.Fprintf(out, "%s ext %s %s\n", c.ID, c.Key, strconv.Quote(pu.String()))
 			fmt.Fprintf(out, "%s ext %s.q %s\n", c.ID, c.Key, strconv.Quote(q))
+		case "header":
+			h := http.Header{}
+			for _, kv := range c.Pairs {
+				h.Add(kv[0], kv[1])
+			}
+			fmt.Fprintf(out, "%s ext %s %s\n", c.ID, c.Key, headerString(h))
 		case "encode":
 			v := url.Values{}
 			for _, kv := range c.Pairs {
